@@ -429,6 +429,25 @@ def _steps(I, d):
                     rec.update({"result": getattr(res, "variant", repr(res)), "ok": bool(okv and popped and out == () and line_of(I, s1, d, wroot) == line),
                                 "emitted": repr(out), "post_line": line_of(I, s1, d, wroot)})
                 recs.append(rec)
+            # -- an overridden write_char: the line-break character and a generic other character
+            for wc in [k for k in d["other_write_items"] if k.endswith("::write_char")]:
+                for which in ("newline", "other"):
+                    st2 = st.copy()
+                    if which == "newline":
+                        carg = VInt(Lin(10), 32, False)
+                    else:
+                        csym = ("ch", "c")
+                        st2.bounds[csym] = (0, 0x10FFFF)
+                        st2.cmp[("Eq", 1, csym, 0, 0, None, 10)] = False
+                        st2.cmp[("Eq", 0, None, 10, 1, csym, 0)] = False
+                        carg = VInt(Lin(0, csym, 1), 32, False)
+                    for (kind, s1, v1, m1) in run(I, st2, wc, [VRef(wroot, (), True), carg]):
+                        rec = {"entry": "ppstep", "step": "write_char", "char": which, "line": line, "stack": label, "exit": kind, "msg": m1}
+                        if kind == "return":
+                            rec.update(check_char(I, s1, d, roles, wroot, pre_items, at_start, init_line, which, v1, fields))
+                            if rec.get("post_line"):
+                                todo.append(rec["post_line"])
+                        recs.append(rec)
             # -- write_str: one loop iteration (or the exit on the empty string)
             sarg = VPy("str", (("any", "s0"),))
             for (kind, s1, v1, m1) in run(I, st, d["write_str"], [VRef(wroot, (), True), sarg], stop_loop=True):
@@ -484,6 +503,54 @@ def check_open(I, s1, d, roles, wroot, pre_items, post, at_start, b, init_line, 
     res["ok"] = ok
     res["why"] = why
     res["post_stack"] = describe_stack(I, s1, post) if post else None
+    return res
+
+
+def check_char(I, s1, d, roles, wroot, pre_items, at_start, init_line, which, value, fields):
+    res = {}
+    why = []
+    pre_items = pm.check_items(s1, pre_items)
+    post = stack_of(I, s1, d, wroot)
+    res["post_line"] = line_of(I, s1, d, wroot)
+    out = canon(s1, s1.meta.get("out", ()))
+    res["emitted"] = repr(out)
+    has_nl = (which == "newline")
+    frag = [("lit", "\n")] if has_nl else [("chr", "c")]
+    ok = True
+    rv = I.force(s1, value) if value is not None else None
+    if not (isinstance(rv, VEnum) and rv.variant == "Ok"):
+        ok = False
+        why.append("write_char returns %r" % (rv,))
+    if post is None or tuple(post) != tuple(pre_items):
+        ok = False
+        why.append("stack changed shape while writing a character")
+    if has_nl and res["post_line"] != init_line:
+        ok = False
+        why.append("after a line break the state is %s, expected %s" % (res["post_line"], init_line))
+    if not has_nl and res["post_line"] == init_line:
+        ok = False
+        why.append("after a character that is not a line break the state is still %s" % init_line)
+    if ok:
+        for assign in assignments(I, s1, pre_items, roles):
+            want = (spec_guides(I, s1, roles, pre_items, assign) if at_start else []) + frag
+            if canon(s1, want) != out:
+                ok = False
+                why.append("emits %r, expected %r (entries %s)" % (out, canon(s1, want), assign))
+                break
+            for it in pre_items:
+                if it[0] != "e":
+                    continue
+                cur = elem_value_under(I, s1, it[1], assign, fields)
+                wl, wf = roles.lf(assign[it[1]])
+                if it == pre_items[-1]:
+                    wf = wf and not has_nl
+                if cur is None or roles.lf(cur) != (wl, wf):
+                    ok = False
+                    why.append("entry %s becomes %s, expected (last=%s, fresh=%s)" % (it[1], cur, wl, wf))
+                    break
+            if not ok:
+                break
+    res["ok"], res["why"] = bool(ok), why
     return res
 
 
